@@ -303,7 +303,8 @@ theorem runFillCompute_short (e : El σ α β) (N : Nat) (rst : Bool) (s : σ) (
   · have hpos : 0 < xs.length := List.length_pos_iff.mpr hx
     have htake : xs.take N = xs := List.take_of_length_le (by omega)
     have hmod : xs.length % N ≠ 0 := by rw [Nat.mod_eq_of_lt h]; omega
-    simp [hx, htake, hmod]
+    simp only [hx, dite_false, htake]
+    rw [if_pos hmod]; rfl
 
 theorem runFillCompute_full (e : El σ α β) (N : Nat) (rst yor : Bool) (s : σ) (a b : List α) (ha : a.length = N)
     (hN : 0 < N) :
@@ -313,12 +314,28 @@ theorem runFillCompute_full (e : El σ α β) (N : Nat) (rst yor : Bool) (s : σ
   rw [runFillCompute]
   have hN0 : ¬ N = 0 := by omega
   have hne : ¬ a ++ b = [] := by
-    intro h; have := congrArg List.length h; simp at this; omega
+    intro h
+    have h1 : a = [] := (List.append_eq_nil_iff.mp h).1
+    rw [h1] at ha; simp at ha; omega
   have htake : (a ++ b).take N = a := by rw [← ha]; simp
   have hdrop : (a ++ b).drop N = b := by rw [← ha]; simp
   simp only [hN0, dite_false, hne, htake, hdrop]
   have hmod : ¬ a.length % N ≠ 0 := by simp [ha]
-  simp only [hmod, if_false]
+  rw [if_neg hmod]
+
+theorem all_not_eq (p : α → Bool) (l : List α) : l.all (fun x => !p x) = !l.any p := by
+  induction l with
+  | nil => rfl
+  | cons x r ih => simp [ih]
+
+theorem takeWhile_lt_of_not_all (q : α → Bool) : ∀ (l : List α), l.all q = false → (l.takeWhile q).length < l.length
+  | [], h => by simp at h
+  | x :: r, h => by
+    by_cases hx : q x = true
+    · have : r.all q = false := by simpa [List.all_cons, hx] using h
+      have := takeWhile_lt_of_not_all q r this
+      simp [List.takeWhile_cons, hx]; omega
+    · simp [List.takeWhile_cons, hx]
 
 /-- never-raising element: `_run_fill_compute` of the extended model is `runFillCompute` -/
 theorem runFillComputeX_ofEl (e : El σ α β) (N : Nat) (rst yor : Bool) : ∀ (k : Nat) (xs : List α) (s : σ), xs.length ≤ k →
@@ -338,9 +355,9 @@ theorem runFillComputeX_ofEl (e : El σ α β) (N : Nat) (rst yor : Bool) : ∀ 
       · have hpos : 0 < xs.length := List.length_pos_iff.mpr hx
         simp only [hx, dite_false, foldFillX_ofEl]
         by_cases hmod : (xs.take N).length % N ≠ 0
-        · simp only [hmod, if_true]
+        · rw [if_pos hmod, if_pos hmod]
           cases yor <;> rfl
-        · simp only [hmod, if_false]
+        · rw [if_neg hmod, if_neg hmod]
           rw [runFillComputeX_ofEl e N rst yor k (xs.drop N) _ (by simp; omega)]
           rfl
 
@@ -366,71 +383,49 @@ theorem run_stop_prefix (e : El σ α β) (p : α → Bool) (N : Nat) (hN : 0 < 
       simp only [hN0, dite_false, hx, foldFillX_stopOn]
       have hsplit : xs = xs.take N ++ xs.drop N := (List.take_append_drop N xs).symm
       by_cases hall : (xs.take N).all (fun x => !p x) = true
-      · simp only [hall, if_true]
-        have hany : (xs.take N).any p = false := by
-          rw [List.any_eq_false]; intro x hx'
-          have := List.all_eq_true.mp hall x hx'
-          simpa using this
+      · have hany : (xs.take N).any p = false := by
+          rw [all_not_eq] at hall; simpa using hall
+        simp only [hall, if_true]
         by_cases hmod : (xs.take N).length % N ≠ 0
         · -- a short, fully accepted flow
+          rw [if_pos hmod]
           have hlen : xs.length < N := by
-            simp only [List.length_take] at hmod
             by_cases hl : xs.length < N
             · exact hl
-            · have : min N xs.length = N := by omega
+            · have : (xs.take N).length = N := by simp; omega
               rw [this] at hmod; simp at hmod
           have htake : xs.take N = xs := List.take_of_length_le (by omega)
           rw [htake] at hall hany
           have htw : xs.takeWhile (fun x => !p x) = xs := by
             have := takeWhile_append_all (fun x => !p x) xs [] hall
             simpa using this
-          simp only [hmod, if_true, Bool.false_eq_true, if_false]
           rw [htw, runFillCompute_short e N rst s xs hlen, hany]
-          exact ⟨trivial, trivial⟩
-        · simp only [hmod, if_false]
+          simp
+        · rw [if_neg hmod]
           have hfull : (xs.take N).length = N := by
-            simp only [List.length_take] at hmod ⊢
             by_cases hl : xs.length < N
-            · have : min N xs.length = xs.length := by omega
-              rw [this, Nat.mod_eq_of_lt hl] at hmod
-              simp at hmod; omega
-            · omega
+            · exfalso
+              apply hmod
+              have hl' : (xs.take N).length = xs.length := by simp; omega
+              rw [hl', Nat.mod_eq_of_lt hl]; omega
+            · simp; omega
           obtain ⟨ih1, ih2⟩ := run_stop_prefix e p N hN rst k (xs.drop N)
             (if rst then e.reset (e.req ((xs.take N).foldl e.fill s)).2 else (e.req ((xs.take N).foldl e.fill s)).2)
             (by simp; omega)
           constructor
           · conv => rhs; rw [hsplit, takeWhile_append_all _ _ _ hall, runFillCompute_full e N rst false s _ _ hfull hN]
-            rw [← ih1]
+            rw [← ih1]; rfl
           · conv => rhs; rw [hsplit, List.any_append, hany, Bool.false_or]
             exact ih2
       · have hall' : (xs.take N).all (fun x => !p x) = false := by simpa using hall
-        simp only [hall', Bool.false_eq_true, if_false]
         have hany : (xs.take N).any p = true := by
-          rw [List.any_eq_true]
-          have : ¬ ∀ x ∈ xs.take N, (!p x) = true := by
-            intro hh; exact hall (List.all_eq_true.mpr hh)
-          by_contra hcon
-          apply this
-          intro x hx'
-          by_cases hpx : p x = true
-          · exact absurd ⟨x, hx', hpx⟩ hcon
-          · simpa using hpx
+          rw [all_not_eq] at hall'; simpa using hall'
+        simp only [hall', Bool.false_eq_true, if_false]
         constructor
         · conv => rhs; rw [hsplit, takeWhile_append_not_all _ _ _ hall']
           have hlen : ((xs.take N).takeWhile (fun x => !p x)).length < N := by
-            have h1 : ((xs.take N).takeWhile (fun x => !p x)).length < (xs.take N).length := by
-              by_contra hcon
-              have hle := List.length_takeWhile_le (fun x => !p x) (xs.take N)
-              have heq : ((xs.take N).takeWhile (fun x => !p x)).length = (xs.take N).length := by omega
-              have : (xs.take N).takeWhile (fun x => !p x) = xs.take N :=
-                List.IsPrefix.eq_of_length (List.takeWhile_prefix _) heq
-              have hall2 : (xs.take N).all (fun x => !p x) = true := by
-                rw [List.all_eq_true]
-                intro x hx'
-                rw [← this] at hx'
-                exact (List.mem_takeWhile_imp hx')
-              exact hall hall2
-            have h2 : (xs.take N).length ≤ N := by simp
+            have h1 := takeWhile_lt_of_not_all (fun x => !p x) (xs.take N) hall'
+            have h2 : (xs.take N).length ≤ N := by rw [List.length_take]; omega
             omega
           rw [runFillCompute_short e N rst s _ hlen]
         · conv => rhs; rw [hsplit, List.any_append, hany, Bool.true_or]
